@@ -550,6 +550,33 @@ func checkWrapper(p *Program, r *Report, sft, sf *ssa.Function) {
 		bad = append(bad, "the wrapper never calls the user's callback")
 	}
 	r.Check(len(bad) == 0, construct, p.Pos(closure.Pos()), "every return is constant false or the callback's result", strings.Join(bad, "; "))
+	// the end-bound test is a function of the current key alone: whether a key lies beyond `end` must
+	// not depend on the keys seen before (a cursor or flag carried across callbacks goes stale once the
+	// scan has crossed `end`), so the wrapper writes no captured variable
+	var stateful []string
+	instrsOf(closure, func(_ *ssa.BasicBlock, in ssa.Instruction) {
+		st, ok := in.(*ssa.Store)
+		if !ok {
+			return
+		}
+		a := st.Addr
+		for d := 0; d < 4; d++ {
+			switch x := a.(type) {
+			case *ssa.FieldAddr:
+				a = x.X
+				continue
+			case *ssa.IndexAddr:
+				a = x.X
+				continue
+			}
+			break
+		}
+		if fv, ok := a.(*ssa.FreeVar); ok {
+			stateful = append(stateful, fmt.Sprintf("%s is written at %s", fv.Name(), p.Pos(st.Pos())))
+		}
+	})
+	r.Check(len(stateful) == 0, "(*trie.SlimTrie).ScanFromTo wrapper decides from the current key alone", p.Pos(closure.Pos()), "the wrapper writes no captured variable",
+		"the end-bound test keeps state across callbacks ("+strings.Join(stateful, "; ")+"): once a key beyond the bound has been seen the carried state no longer describes the current key, and keys beyond `end` can be yielded")
 }
 
 // checkExhaust: the iterator closure starts by testing captured state; the
